@@ -74,6 +74,24 @@ var c14Hostile = []string{
 	`func maps() {m = {"a": 1.0, 2: [3]}; m.b = 2; m[nil] = 0; m}`,
 	`func neg() {-(1.0) - -2}`,
 	`l40 = "0123456789012345678901234567890123456789"`,
+	// named functions held inside containers while their name is bound to something else by now
+	`func fq(x) {x + 1}; zq = [fq, {"k": fq}]; fq = 3`,
+	`func fq2(x) {x + 1}; zq2 = {"k": fq2, "l": [fq2]}; func fq2(x) {x + 2}`,
+	`func fq3(x) {x * 2}; zq3 = [[fq3]]; del(fq3)`,
+	// bodies whose consecutive statements would mean something else if they were joined
+	`func j1(a, r) {max(a, 2); (x => x + r)(a)}; func j2(a, r) {if a > 0 {r = r + 1}; (x => x + r)(a)}; func j3(a) {[a][0]; (a + 1) * 2}; func j4(a, b) {a; -b}; func j5(a, b) {a; ^b}; func j6(a, b) {a; +b}`,
+	`func j7(a, b) {c = a; [b][0]}; func j8(a) {a; (a)}; func j9(a, b) {x = {"k": a}; {"z": b}.z}; func j10(a, b) {a; !b}; func j11(f, b) {f; (b)}; j12 = (a, b) => {len(a); (y => y * 2)(b)}; j13 = (a, b) => {a[0]; (b)}`,
+	`func j14(a, b) {for 2 {a = a + 1}; (z => z + a)(b)}; func j15(a, b) {x = (a); (b)}; func j16(a, b) {a++; ++b; [a, b]}; func j17(a, b) {a--; -b}; func j18(a, b) {a; ++b}; func j19(a) {if a > 1 {return}; (a)}; func j20(a, b) {m = {}; m.k = a; (b)}`,
+	// globals only ever changed from inside functions (assigned, read then assigned, incremented, appended to)
+	`gc = 1; func zz_incgc() {gc = gc + 1}`,
+	`gp = 0; func zz_ppgp() {gp++; nil}`,
+	`gar = []; func zz_appgar() {gar = gar + [1.5]; nil}`,
+	`gmp = {"n": 0}; func zz_setgmp() {gmp.n = gmp.n + 1; nil}`,
+}
+
+// c14Setters: a session whose only change to the globals is made by calling the function; the saved file must then hold the line.
+var c14Setters = []struct{ fn, want string }{
+	{"zz_setgx", "\ngx=5\n"}, {"zz_incgc", "\ngc=2\n"}, {"zz_ppgp", "\ngp=1\n"}, {"zz_appgar", "\ngar=[1.5]\n"}, {"zz_setgmp", "\ngmp={\"n\":1}\n"},
 }
 
 func init() {
@@ -315,9 +333,12 @@ func (p c14) autoCycle(c *fw.Ctx, build []string) (kind, detail string) {
 		return "", ""
 	}
 	second2 := "zz_probe = 1; del(zz_probe)"
-	setter := strings.Contains(string(first), "func zz_setgx(")
-	if setter {
-		second2 = "zz_setgx()" // the only change of this session is a global assigned from inside a function
+	setter, setterWant := false, ""
+	for _, st := range c14Setters {
+		if strings.Contains("\n"+string(first), "\nfunc "+st.fn+"(") && !setter {
+			setter, setterWant = true, st.want
+			second2 = st.fn + "()" // the only change of this session is a global changed from inside a function
+		}
 	}
 	retype := strings.Contains(string(first), "\nge=[1,2]\n")
 	if retype && !setter {
@@ -340,8 +361,8 @@ func (p c14) autoCycle(c *fw.Ctx, build []string) (kind, detail string) {
 	}
 	if setter {
 		saved, _ := os.ReadFile(".gr")
-		if !strings.Contains(string(saved), "\ngx=5\n") {
-			return "autosave-skipped", "a session whose only change is a global assigned from inside a function did not save it: " + clip(string(saved))
+		if !strings.Contains("\n"+string(saved), setterWant) {
+			return "autosave-skipped", fmt.Sprintf("a session whose only change is a global changed from inside a function (%s) did not save %q: %s", second2, setterWant, clip(string(saved)))
 		}
 		return "", ""
 	}
